@@ -77,9 +77,11 @@ def run_pipeline(tier):
         futs = [ex.submit(run_race, "sessreplay", ["-scale", "-out", os.path.join(d, "scale.ndjson")], "session-scale"),
                 ex.submit(run_race, "hubsrec", ["-mode", "stress", "-comps", "tellhub,askhub,queue", "-windows",
                                                 "200" if tier == "quick" else "2000", "-out", os.path.join(d, "stress.ndjson"), "-casebase", "1"], "hubs-stress")]
+        futs.append(ex.submit(run_race, "kadreplay", ["-hammer"], "kademlia-hammer"))
         for f in futs:
             races += f.result()
     stats["drivers"]["session-scale"] = dict(cases=5)
+    stats["drivers"]["kademlia-hammer"] = dict(goroutines=8)
     stats["drivers"]["hubs-stress"] = dict(windows=200 if tier == "quick" else 2000)
     # 3. events for TLC
     seen = {}
